@@ -39,8 +39,6 @@ def _lake_lock():
 def translate():
     sys.path.insert(0, os.path.join(VERIF, "harness"))
     import translate as tr
-    tr.EXTRA_SECTIONS.clear()
-    tr._load_extra_sections()
     return tr.main()
 
 
